@@ -95,16 +95,20 @@ class World:
         op, arg = e["op"], e["arg"]
         # every real operation is a separate `cylc` process: drop the (closed but still attached) file
         # handlers that a previous in-process install left on the install loggers
-        import logging
-        for name in ("cylc-install", "cylc-reinstall"):
-            lg = logging.getLogger(name)
-            for h in list(lg.handlers):
-                h.close()
-                lg.removeHandler(h)
+        self._reset_loggers()
         sink = io.StringIO()
         try:
             with contextlib.redirect_stdout(sink):
-                if op == "install":
+                if op == "prior":
+                    # the earlier history Install.tla's Priors stand for, on the real code
+                    keep = {int(x) for x in arg.split(",")}
+                    for _ in range(max(keep)):
+                        install_workflow(Path(self.src), WF)
+                        self._reset_loggers()
+                    for i in range(1, max(keep)):
+                        if i not in keep:
+                            asyncio.run(init_clean(f"{WF}/run{i}", CleanOptions()))
+                elif op == "install":
                     install_workflow(Path(self.src), WF)
                 elif op == "install-run-name":
                     install_workflow(Path(self.src), WF, run_name=arg)
@@ -121,6 +125,15 @@ class World:
         except WorkflowFilesError as exc:
             return False, str(exc).splitlines()[0]
         return True, ""
+
+    @staticmethod
+    def _reset_loggers():
+        import logging
+        for name in ("cylc-install", "cylc-reinstall"):
+            lg = logging.getLogger(name)
+            for h in list(lg.handlers):
+                h.close()
+                lg.removeHandler(h)
 
     def snapshot(self):
         self.nsnap += 1
@@ -311,7 +324,8 @@ def run(ctx):
     tasks = []
 
     def split(node, prefix):
-        if node["size"] <= 24 or not node["children"]:
+        # (the "prior" pseudo-operation costs ~20 real operations to replay: larger subtrees below it)
+        if node["size"] <= (150 if prefix[0]["hist"][0]["op"] == "prior" else 24) or not node["children"]:
             tasks.append(prefix)
         else:
             for ch in node["children"]:
@@ -338,7 +352,7 @@ def run(ctx):
         "distinct_nontrivial": tot["nontrivial"],
         "refused_operations_replayed": tot["refused"],
         "rule": f"every behaviour of <= {maxops} operations over install / install --run-name {'a' if nnames == 1 else 'a|b'} / install "
-                "--no-run-name / reinstall <run> / clean <run> (TLC dump of MC_Install, history variable) replayed on "
+                "--no-run-name / reinstall <run> / clean <run>, from a fresh directory or from the prior state run9+run10+run11 (TLC dump of MC_Install, history variable) replayed on "
                 "install_workflow, reinstall_workflow, init_clean in a scratch HOME; projection and C48 clauses compared "
                 "after every operation; non-trivial = behaviour with a refused operation or an install after a clean",
         "exhaustive": True,
